@@ -495,7 +495,7 @@ int muggle_str_tof(const char *str, float *pval)
 		}
 	}
 
-	if (*pval == HUGE_VAL || *pval == HUGE_VALF || *pval == HUGE_VALL)
+	if (isinf(*pval) && errno == ERANGE)
 	{
 		// out of range
 		return 0;
@@ -527,7 +527,8 @@ int muggle_str_tod(const char *str, double *pval)
 			return 0;
 		}
 	}
-	else if ((*pval == HUGE_VAL || *pval == HUGE_VALF || *pval == HUGE_VALL) && errno == ERANGE)
+
+	if (isinf(*pval) && errno == ERANGE)
 	{
 		// out of range
 		return 0;
@@ -560,7 +561,8 @@ int muggle_str_told(const char *str, long double *pval)
 			return 0;
 		}
 	}
-	else if ((*pval == HUGE_VAL || *pval == HUGE_VALF || *pval == HUGE_VALL) && errno == ERANGE)
+
+	if (isinf(*pval) && errno == ERANGE)
 	{
 		// out of range
 		return 0;
